@@ -110,3 +110,8 @@ def run(tier):
     v.coverage = cov
     v.assumptions = ["runs ending in stack exhaustion are not compared", "deviations without the plan belong to C01/C02, crashes to C06"]
     return v.finish()
+
+
+def replay(path):
+    import replaytool
+    return replaytool.replay("C03", path)
